@@ -381,6 +381,7 @@ func run(c *eng.Ctx) {
 		runSameRequestTwice(c, alloc)
 		RunNestedInstall(c, "C16", alloc)
 		RunRejectedRequests(c, "C16", alloc)
+		RunFallbackHandlers(c, "C16", alloc)
 	}()
 	for idx := 0; idx < l.total; idx++ {
 		if !c.Mine(idx) {
